@@ -9,13 +9,18 @@
      Update       Witness.Update with the issuer's update covering everything the witness misses
      Prove        CreateDisclosureProof(nonrev): consume the cached builder (refreshing its commitment to the
                   witness' accumulator if that moved on: NonRevocationProofBuilder.UpdateCommit) or build a fresh one
-     Attack(k)    the last proof is manipulated in one way before it reaches the verifier
+     Attack(k)    the last proof is manipulated in one way before it reaches the verifier, or (zero-forgery) replaced
+                  by a proof the holder - revoked or not - builds without using its witness at all
    hist records every operation with what the specification expects to be observed. *)
 EXTENDS Integers, Sequences, FiniteSets, TLC
 CONSTANTS MaxOps
 
 Attacks == {"Cr", "Cu", "beta", "delta", "epsilon", "zeta", "alpha-response", "sacc-older", "sacc-newer", "sacc-otherchain",
-            "sacc-garbled", "transplant", "strip", "witness-attr-disclosed"}
+            "sacc-garbled", "transplant", "strip", "witness-attr-disclosed",
+            \* degenerate group elements: Cr or Cu replaced by 0 mod n in the proof as it is, and a proof built from
+            \* scratch around Cr = Cu = 0 mod n (every commitment the verifier reconstructs is then 0 whatever the
+            \* responses are, so the prover hashes zeros and needs no witness) against the issuer's NEWEST accumulator
+            "Cr-zero", "Cu-zero", "zero-forgery"}
 
 VARIABLES acc,      \* index of the issuer's current accumulator
           accT,     \* time at which the issuer's current signed accumulator was signed (a counter)
